@@ -37,7 +37,7 @@ pub fn c16(args: Args) {
     let prof = Profile {
         replicas_min: 1, replicas_max: 2, file_backed: false, ops_min: 25, ops_max: 70, prefill: 0, long_gaps_when_replicated: false, level: kanidmd_lib::constants::DOMAIN_TGT_LEVEL, unique_names: true, home_creates: true, skewed_quarters: 0, late_joiner: false,
         pop: Pop { persons: 4, services: 2, groups: 4, dyngroups: 0, oauths: 1, certs: 2, names: 6 },
-        w: Weights { create: 30, rename: 3, set_desc: 3, add_member: 22, rem_member: 6, set_manager: 12, scope_map: 10,
+        w: Weights { create: 30, rename: 3, set_desc: 3, add_member: 22, rem_member: 6, set_manager: 12, scope_map: 10, claim_map: 12,
             delete: 14, revive: 8, purge_recycled: 3, purge_tombstones: 2, advance_small: 4, advance_big: 4, repl: 8, abort: 2, ..Default::default() },
     };
     let after = |w: &World, rec: &LogRec, _s: &SchemaSnap, acc: &mut Acc| -> Vec<Finding> {
@@ -48,6 +48,7 @@ pub fn c16(args: Args) {
                 Op::AddMember { member, .. } => Some(*member),
                 Op::SetManager { target: Some(t), .. } => Some(*t),
                 Op::ScopeMap { grp, remove: false, .. } => Some(*grp),
+                Op::ClaimMap { grp, remove: false, .. } => Some(*grp),
                 _ => None,
             };
             if let Some(t) = tgt {
@@ -56,7 +57,7 @@ pub fn c16(args: Args) {
                     acc.count("accepted_reference_to_non_live_target");
                 }
             }
-        } else if matches!(rec.op, Op::AddMember { .. } | Op::SetManager { .. } | Op::ScopeMap { .. }) {
+        } else if matches!(rec.op, Op::AddMember { .. } | Op::SetManager { .. } | Op::ScopeMap { .. } | Op::ClaimMap { .. }) {
             acc.count("rejected_reference_edit");
         }
         mon::check_refint(&w.dumps[r])
@@ -68,7 +69,7 @@ pub fn c16(args: Args) {
     let hooks = Hooks { after_op: &after, at_end: &end, nontrivial: &nt, dyn_check: false, quiesce: true, verify_sig: Some("c16/server-verify") };
     let n = args.tier.pick(160, 5000);
     run_histories(&mut run, &args, 16, n, &prof, &hooks);
-    require_ops(&mut run, &["create", "add_member", "set_manager", "scope_map", "delete", "revive", "purge_recycled", "repl"]);
+    require_ops(&mut run, &["create", "add_member", "set_manager", "scope_map", "claim_map", "delete", "revive", "repl"]);
     require_rejects(&mut run, &["add_member"]);
     run.finish();
 }
